@@ -82,6 +82,8 @@ static void chk(const char* tr, const char* tyn, uint64_t off, const std::string
     std::string st = off == ~0ull ? "null" : std::to_string(off);
     std::string sg = std::string("C03 step=") + tr + " pointee=" + tyn + " from=" + (off == ~0ull ? "null" : "inside");
     if (g_cur_straddle && strncmp(tr, "&p->", 4) == 0) sg = "C03 step=&p->field from=struct-straddling-region-end";
+    if (g_cur_straddle && strncmp(tr, "&(*p)[", 6) == 0) sg = "C03 step=&(*p)[k] from=array-straddling-region-end";
+    if (g_cur_straddle && strncmp(tr, "static_cast<Base", 16) == 0) sg = "C03 step=static_cast<Base*>(Derived*) from=object-straddling-region-end";
     viol(sg, std::string("step|") + tyn + "|" + st + "|" + tr + "|" + arg,
          std::string("from ") + tyn + "* at " + st + ", " + tr + "(" + arg + ") returned a tainted pointer to " + where(p));
   }
@@ -145,6 +147,14 @@ static void state(uint64_t off, const std::vector<i128>& ns)
   step<T>("p--", off, "", [&] { auto p = mkp<T>(off); p--; chk<T>("p--", tyn, off, "", p); });
   // (also from the null state: &*p and &p->field must not turn null into a small non-null address)
   {
+    if constexpr (std::is_array_v<T>) {
+      // element addresses of a static array reached through a pointer to the array
+      using E = std::remove_extent_t<T>;
+      constexpr size_t N = std::extent_v<T>;
+      step<T>("&(*p)[0]", off, "", [&] { auto p = mkp<T>(off); chk<E>("&(*p)[0]", tyn, off, "", &(*p)[0]); });
+      step<T>("&(*p)[N-1]", off, "", [&] { auto p = mkp<T>(off); chk<E>("&(*p)[N-1]", tyn, off, "", &(*p)[N - 1]); });
+      step<T>("&(*p)[tainted N-1]", off, "", [&] { auto p = mkp<T>(off); tn<unsigned> k = (unsigned)(N - 1); chk<E>("&(*p)[tainted N-1]", tyn, off, "", &(*p)[k]); });
+    }
     if constexpr (!std::is_class_v<T>) {
       step<T>("&*p", off, "", [&] { auto p = mkp<T>(off); chk<T>("&*p", tyn, off, "", &*p); });
     } else {
@@ -174,6 +184,19 @@ static void state(uint64_t off, const std::vector<i128>& ns)
         viol(std::string("C03 step=store-load pointee=") + tyn + " kind=changed", std::string("step|") + tyn + "|" + std::to_string(off) + "|store-load|", "pointer changed by a store/load round trip");
     });
   }
+}
+
+// ---- derived-to-base sandbox_static_cast: the cast adds the application's base-subobject offset --------------
+struct CBaseA { long x; };
+struct CBaseB { long y; };
+struct CDerived : CBaseA, CBaseB { long z; };
+template<> struct tyname<CDerived> { static constexpr const char* n = "CDerived"; };
+static void derived_cast_state(uint64_t off)
+{
+  n_states++;
+  g_cur_straddle = off != ~0ull && off + sizeof(CDerived) > kSize;
+  step<CDerived>("static_cast<BaseB*>", off, "", [&] { chk<CBaseB>("static_cast<BaseB*>", "CDerived", off, "", rlbox::sandbox_static_cast<CBaseB*>(mkp<CDerived>(off))); });
+  step<CDerived>("static_cast<BaseA*>", off, "", [&] { chk<CBaseA>("static_cast<BaseA*>", "CDerived", off, "", rlbox::sandbox_static_cast<CBaseA*>(mkp<CDerived>(off))); });
 }
 
 // ---- pointer-to-pointer dereference: cell at `off` holds every boundary representation ---------
@@ -387,6 +410,7 @@ int main(int argc, char** argv)
     else if (f[0] == "deref") { std::vector<uint64_t> reps{ strtoull(f[1].c_str(), nullptr, 10) }; deref_state<int>(0x400, reps); }
     else if (f[0] == "step") {
       uint64_t off = f[2] == "null" ? ~0ull : strtoull(f[2].c_str(), nullptr, 10);
+      if (f[1] == "CDerived") derived_cast_state(off);
       for_types(tl<C03_TYPES>{}, [&](auto* tp) {
         using T = std::remove_pointer_t<decltype(tp)>;
         if (f[1] != tyname<T>::n && f[1] != tyname<T*>::n) return;
@@ -423,6 +447,13 @@ int main(int argc, char** argv)
       }
       setadd("pointee_types", tyname<T>::n);
     });
+    {
+      std::vector<uint64_t> offs{ ~0ull };
+      for (uint64_t o = 0; o < 4096 && o < kSize; o++) { offs.push_back(o); offs.push_back(kSize - 1 - o); }
+      for (uint64_t off : offs)
+        if (mine(blk++ / 256)) derived_cast_state(off);
+      setadd("pointee_types", "CDerived");
+    }
     // pointer-to-pointer dereference with boundary representations in the cell (committed memory only)
     std::vector<uint64_t> reps;
     for (i128 v : lattice128())
